@@ -1007,6 +1007,13 @@ class ContainerEngine:
                 viol.append(v)
             except SimRunaway as e:
                 viol.append({"prop": "C09", "oracle": "no-progress", "detail": str(e), "shape": "runaway", "step": len(log)})
+            except env.HarnessError:
+                raise
+            except Exception as e:
+                v = env.sut_exception_violation(e, case.get("prop", "C01"), len(log))
+                if v is None:
+                    raise
+                viol.append(v)
         finally:
             w.shutdown()
         kinds = [o["op"] for o in case["ops"]]
@@ -1294,6 +1301,107 @@ def within(root, name):
     return name == root or root == "/" or name.startswith(root.rstrip("/") + "/")
 
 
+def content_tokens(w):
+    dump, _ = V.dump_tree(w.ref)
+    tokens = set()
+    for p, ent in dump.items():
+        vals = list(ent[-1].values()) + ([ent[1]] if ent[0] == "d" else [])
+        for v in vals:
+            if v[0] not in ("e", "b"):
+                tokens.add(json.dumps(v))
+    return tokens
+
+
+def closure_check(w, dv, h, tokens):
+    """Systematic: everything one navigation step away from a restricted handle must be a
+    wrapped node carrying at least the handle's flags, inside the local root, and (for
+    skel_only) must not give out content."""
+    node = h["node"]
+    fl = flags_of(node)
+    if not fl:
+        return
+    root = h["root"]
+    results = []
+
+    def add(prim, fn):
+        try:
+            r = fn()
+        except Exception:
+            return
+        if r is None:
+            return
+        if isinstance(r, (list, tuple)):
+            results.extend((prim, x) for x in r if x is not None)
+        else:
+            results.append((prim, r))
+
+    isgrp = hasattr(node, "keys") and hasattr(node, "create_group")
+    if isgrp:
+        try:
+            names = sorted(node.keys())[:5]
+        except Exception:
+            names = []
+        for nm in names:
+            add("getitem", lambda nm=nm: node[nm])
+            add("get", lambda nm=nm: node.get(nm))
+        add("values", lambda: list(node.values())[:5])
+        add("items", lambda: [v for _, v in list(node.items())[:5]])
+
+        def vis():
+            seen = []
+            node.visititems(lambda n, x: seen.append(x) if len(seen) < 10 else None)
+            return seen
+
+        add("visititems", vis)
+        add("query", lambda: [n for q in ("verif.base", "core.file", "core.dir", "verif.other") for n in node.metador.query(q)][:10])
+    add("parent", lambda: node.parent)
+    w.probe("closure_checks")
+    for prim, x in results:
+        if is_raw_node(w, x):
+            raise Violation("C15", "unwrapped-node", f"[{dv.kind}] {prim} from a node restricted {sorted(fl)} ({node.name}) returned an unwrapped {type(x).__name__} ({x.name})", shape=prim)
+        if is_node(x):
+            got = flags_of(x)
+            if not fl <= got:
+                raise Violation("C15", "restriction-dropped", f"[{dv.kind}] node {x.name} obtained via {prim} from {node.name} has flags {sorted(got)}, source had {sorted(fl)}", shape=prim)
+            if root is not None and not within(root, x.name):
+                raise Violation("C15", "local-escape", f"[{dv.kind}] {prim} from local_only node {node.name} (local root {root}) yielded {x.name}", shape=prim)
+    if "skel_only" in fl:
+        for prim, x in results + [("self", node)]:
+            if not is_node(x):
+                continue
+            reads = []
+
+            def rd(what, fn):
+                try:
+                    reads.append((what, fn()))
+                except Exception:
+                    pass
+
+            rd("attrs.values()", lambda: list(x.attrs.values()))
+            rd("attrs.items()", lambda: list(x.attrs.items()))
+            try:
+                akeys = list(x.attrs.keys())[:4]
+            except Exception:
+                akeys = []
+            try:
+                mkeys = list(x.meta.keys())[:3]
+            except Exception:
+                mkeys = []
+            for k in akeys:
+                rd(f"attrs[{k!r}]", lambda k=k: x.attrs[k])
+                rd(f"attrs.get({k!r})", lambda k=k: x.attrs.get(k))
+            if not (hasattr(x, "keys") and hasattr(x, "create_group")):
+                rd("[()]", lambda: x[()])
+            for k in mkeys:
+                rd(f"meta[{k!r}]", lambda k=k: x.meta[k])
+                rd(f"meta.get({k!r})", lambda k=k: x.meta.get(k))
+            rd("meta.values()", lambda: list(x.meta.values()))
+            for what, val in reads:
+                l = leaks(w, val, tokens)
+                if l:
+                    raise Violation("C15", "skel-only-leak", f"[{dv.kind}] {what} of {x.name} (reached via {prim} from skel_only node {node.name}) returned {l}", shape=what.split("(")[0].split("[")[0])
+
+
 def op_grant(w, op):
     a = w.actors.setdefault(op["actor"], {"handles": {dv.kind: [] for dv in w.drv}})
     p = w.norm(op["path"])
@@ -1310,6 +1418,11 @@ def op_grant(w, op):
             ok = False
             a["handles"].setdefault(dv.kind, []).append(None)
     w.count("actor_grant")
+    tokens = content_tokens(w)
+    for dv in w.drv:
+        hs = a["handles"].get(dv.kind, [])
+        if hs and hs[-1] is not None:
+            closure_check(w, dv, hs[-1], tokens)
     return "ok" if ok else "nonode"
 
 
@@ -1454,13 +1567,13 @@ def leaks(w, res, tokens):
 def op_attempt(w, op):
     kind, arg = op["kind"], op.get("arg", 0)
     # unique content tokens of the container (dataset and attribute values, except bools/Empty)
-    dump, _ = V.dump_tree(w.ref)
-    tokens = set()
-    for p, ent in dump.items():
-        vals = list(ent[-1].values()) + ([ent[1]] if ent[0] == "d" else [])
-        for v in vals:
-            if v[0] not in ("e", "b"):
-                tokens.add(json.dumps(v))
+    tokens = content_tokens(w)
+    if kind == "closure":
+        for dv in w.drv:
+            h = _handle(w, dv, op)
+            if h is not None:
+                closure_check(w, dv, h, tokens)
+        return "ok"
     cls_other = w.schemas._get_unsafe("verif.other", (0, 1, 0))
     out = "ok"
     for dv in w.drv:
@@ -1642,8 +1755,8 @@ class ActorGen:
         if roll < 0.5:
             self.n[actor] += 1
             return {"op": "nav", "actor": actor, "h": g.randrange(1000), "prim": g.choice(NAV_PRIMS), "arg": g.randrange(50)}
-        grp = g.choice(["M", "M", "R", "R", "U"])
-        kind = g.choice(MUTATING if grp == "M" else READING if grp == "R" else UPWARD)
+        grp = g.choice(["M", "M", "R", "R", "U", "C"])
+        kind = "closure" if grp == "C" else g.choice(MUTATING if grp == "M" else READING if grp == "R" else UPWARD)
         return {"op": "attempt", "actor": actor, "h": g.randrange(1000), "kind": kind, "arg": g.randrange(50)}
 
 
